@@ -678,6 +678,11 @@ def run(c):
                     got = ('1' if fl & 32 else '0', ('1' if fl & 4 else '0') + ('1' if fl & 16 else '0'))
                     if want != got and want != ('none', 'none'):
                         disagreements.append((pi, 'snapshot.flags'))
+        # every field of every pending event (name, type, hideSendId, sendid, origintype, invokeid, data, namelist,
+        # params; delayed events by their uuid) is the same in the resumed interpreter -- implementation against itself
+        if 'OQF' in f and 'RQF' in f and f['OQF'] != f['RQF'] and \
+                f['OQ'].partition(';')[0] == f['RQ'].partition(';')[0] and dq_names(f['OQ'].partition(';')[2])[0] == dq_names(f['RQ'].partition(';')[2])[0]:
+            classes.setdefault('pending-event-fields', []).append(pi)
         for tag in ('OQ', 'RQ'):
             if tag in f and tag in mf:
                 ie, _, idq = f[tag].partition(';')
